@@ -116,6 +116,7 @@ class Cv(V):
 @dataclass
 class Fv(V):
     name: str
+    recv: object = None      # for 'bound:<method>': the object the method was read from (a local may keep it: f = obj.m)
 
 
 @dataclass
@@ -575,6 +576,103 @@ class SX:
         self._field_types[key] = out
         return out
 
+    def ctor_alias(self, cls, mangled):
+        """a private field that __init__ binds once to an attribute chain of a constructor argument which is itself kept in a
+        field (`self.__pt = powertrain; self.__elements = powertrain.elements`) reads as that chain through the kept
+        field (`self.__pt.elements`) - provided no other method writes it.  Whether the chain's containers are ever
+        rebound by their owner is the alias rule's business (sa/aliases).  Returns an expression AST rooted at `self` or None"""
+        key = ('alias', cls, mangled)
+        if key in self._field_types:
+            return self._field_types[key]
+        out = None
+        ci = self.model.classes.get(cls)
+        init = ci.members.get('__init__') if ci else None
+        if init is not None:
+            stores = [(m, n) for m in ci.all_members() for n in ast.walk(m.node)
+                      if isinstance(n, ast.Attribute) and isinstance(n.ctx, ast.Store) and isinstance(n.value, ast.Name) and n.value.id == 'self'
+                      and self.model.mangle(cls, n.attr) == mangled]
+            assigns = [a for a in walk_no_nested(init.node) if isinstance(a, ast.Assign) and len(a.targets) == 1
+                       and isinstance(a.targets[0], ast.Attribute) and isinstance(a.targets[0].value, ast.Name) and a.targets[0].value.id == 'self'
+                       and self.model.mangle(cls, a.targets[0].attr) == mangled]
+            top = {id(x) for x in init.node.body}
+            if len(stores) == 1 and len(assigns) == 1 and id(assigns[0]) in top:
+                params = {a.arg for a in init.node.args.args[1:]}
+                kept = {}          # param -> field attr (as written) holding it
+                locs = {}
+                nbind = {}
+                for a in walk_no_nested(init.node):
+                    if isinstance(a, ast.Assign) and len(a.targets) == 1:
+                        t = a.targets[0]
+                        if isinstance(t, ast.Attribute) and isinstance(t.value, ast.Name) and t.value.id == 'self' \
+                                and isinstance(a.value, ast.Name) and a.value.id in params:
+                            kept.setdefault(a.value.id, t.attr)
+                        if isinstance(t, ast.Name):
+                            nbind[t.id] = nbind.get(t.id, 0) + 1
+                            locs[t.id] = a.value
+                for a in walk_no_nested(init.node):
+                    if isinstance(a, (ast.AugAssign, ast.For)) :
+                        tg = a.target
+                        for x in ast.walk(tg):
+                            if isinstance(x, ast.Name):
+                                nbind[x.id] = nbind.get(x.id, 0) + 2
+
+                def rooted(e, depth=0):
+                    if depth > 4:
+                        return None
+                    if isinstance(e, ast.Name):
+                        if e.id in params and e.id in kept and nbind.get(e.id, 0) == 0:
+                            return ast.Attribute(value=ast.Name(id='self', ctx=ast.Load()), attr=kept[e.id], ctx=ast.Load())
+                        if e.id in locs and nbind.get(e.id) == 1 and e.id not in params:
+                            return rooted(locs[e.id], depth + 1)
+                        return None
+                    if isinstance(e, ast.Attribute):
+                        b = rooted(e.value, depth)
+                        return ast.Attribute(value=b, attr=e.attr, ctx=ast.Load()) if b is not None else None
+                    # a fact about a kept argument remembered as a boolean: `self.__has_x = x is not None`
+                    if isinstance(e, ast.Compare) and len(e.ops) == 1 and isinstance(e.ops[0], (ast.Is, ast.IsNot)) \
+                            and isinstance(e.comparators[0], ast.Constant) and e.comparators[0].value is None:
+                        b = rooted(e.left, depth)
+                        return ast.Compare(left=b, ops=e.ops, comparators=e.comparators) if b is not None else None
+                    if isinstance(e, ast.BoolOp):
+                        vs = [rooted(x, depth) for x in e.values]
+                        return ast.BoolOp(op=e.op, values=vs) if all(x is not None for x in vs) else None
+                    if isinstance(e, ast.UnaryOp) and isinstance(e.op, ast.Not):
+                        b = rooted(e.operand, depth)
+                        return ast.UnaryOp(op=e.op, operand=b) if b is not None else None
+                    return None
+
+                def single_store(attr_written):
+                    mg = self.model.mangle(cls, attr_written)
+                    return sum(1 for m_ in ci.all_members() for n_ in ast.walk(m_.node)
+                               if isinstance(n_, ast.Attribute) and isinstance(n_.ctx, ast.Store) and isinstance(n_.value, ast.Name)
+                               and n_.value.id == 'self' and self.model.mangle(cls, n_.attr) == mg) == 1
+                v = assigns[0].value
+                if not isinstance(v, ast.Name) or v.id not in params:       # a plain kept parameter is an ordinary typed field
+                    r = rooted(v)
+                    used = {x.attr for x in ast.walk(r) if isinstance(x, ast.Attribute) and isinstance(x.value, ast.Name) and x.value.id == 'self'} \
+                        if r is not None else set()
+                    if r is not None and not isinstance(r, ast.Name) and not (isinstance(r, ast.Attribute) and isinstance(r.value, ast.Name)) \
+                            and all(single_store(a) for a in used):
+                        out = ast.fix_missing_locations(ast.copy_location(r, assigns[0]))
+        self._field_types[key] = out
+        return out
+
+    def eval_alias(self, al, obj, owner, st, frame):
+        """evaluate a constructor alias (an expression rooted at `self`) for the object `obj`"""
+        s0 = st.copy()
+        s0.env = dict(st.env)
+        s0.env['self'] = obj
+        res = []
+        for r in self.eval_x(al, s0, dict(frame, cls=owner)):
+            if isinstance(r, Outcome):
+                r.state.env = dict(st.env)
+                res.append(r)
+            else:
+                s1 = r[0].copy()
+                s1.env = dict(st.env)
+                res.append((s1, r[1]))
+        return res
+
     def member_type(self, cls, name):
         """return annotation of property/method `name` looked up on cls, falling back to the
         agreeing definitions on its subclasses"""
@@ -725,6 +823,7 @@ class SX:
         if isinstance(s, ast.Raise):
             exc = s.exc
             name = ast.unparse(exc.func) if isinstance(exc, ast.Call) else (ast.unparse(exc) if exc else 're-raise')
+            name = self.raised_class(exc, name, st, frame)
             return [Outcome(st, 'raise', name, s.lineno)]
         if isinstance(s, ast.If):
             res = []
@@ -819,6 +918,42 @@ class SX:
                 res.append(o)
         return res
 
+    def raised_class(self, exc, name, st, frame, depth=0):
+        """class name of a raised expression that is not written as `Class(...)`: a helper that builds and returns the
+        exception (`raise self.__error(x)`), or a local bound to one"""
+        if exc is None or depth > 2:
+            return name
+        if isinstance(exc, ast.Name):
+            v = st.env.get(exc.id)
+            if isinstance(v, Unk):
+                head = v.text.split('(')[0]
+                if head.isidentifier() and head != exc.id:
+                    return head
+            return name
+        if not isinstance(exc, ast.Call):
+            return name
+        f = exc.func
+        if isinstance(f, ast.Name) and (f.id.endswith(('Error', 'Exception', 'Warning')) or f.id in ('StopIteration', 'KeyboardInterrupt')):
+            return name
+        fn = None
+        if isinstance(f, ast.Attribute) and isinstance(f.value, ast.Name) and f.value.id in ('self', 'cls') and frame.get('cls'):
+            sv = st.env.get('self')
+            m = self.model.find_member(sv.cls if isinstance(sv, Ov) and sv.cls else frame['cls'], f.attr) or \
+                self.model.find_member(frame['cls'], f.attr)
+            fn = m.node if m is not None and m.kind not in ('property', 'setter') else None
+        elif isinstance(f, ast.Name) and f.id in self.model.functions:
+            fn = self.model.functions[f.id][1]
+        if fn is None:
+            return name
+        classes = set()
+        for r in walk_no_nested(fn):
+            if isinstance(r, ast.Return) and r.value is not None:
+                if isinstance(r.value, ast.Call) and isinstance(r.value.func, ast.Name):
+                    classes.add(r.value.func.id)
+                else:
+                    return name
+        return classes.pop() if len(classes) == 1 else name
+
     def assign(self, target, value: V, st: State, frame, lineno) -> list:
         if isinstance(target, ast.Name):
             s = st.copy()
@@ -859,6 +994,25 @@ class SX:
                             nxt.append(o.state)
                 cur = nxt
             return [Outcome(c, 'fall') for c in cur]
+        if isinstance(target, (ast.Tuple, ast.List)) and sum(isinstance(t, ast.Starred) for t in target.elts) == 1 \
+                and isinstance(value, (Seq, Tv)) and all(isinstance(t.value if isinstance(t, ast.Starred) else t, ast.Name) for t in target.elts):
+            # first, *rest = seq   /   *init, last = seq
+            k = next(i for i, t in enumerate(target.elts) if isinstance(t, ast.Starred))
+            after = len(target.elts) - k - 1
+            s = st.copy()
+            node = ast.parse('x', mode='eval').body
+            for i, t in enumerate(target.elts):
+                if i < k:
+                    s.env[t.id] = self.subscript(value, N(Rat.const(i), 'int'), s, frame, node)
+                elif i == k:
+                    sl = f'{k if k else ""}:{-after if after else ""}'
+                    if isinstance(value, Tv):
+                        s.env[t.value.id] = Tv(list(value.items[k:len(value.items) - after]), 'list')
+                    else:
+                        s.env[t.value.id] = self.subscript(value, Unk('slice:' + sl), s, frame, node)
+                else:
+                    s.env[t.id] = self.subscript(value, N(Rat.const(i - len(target.elts)), 'int'), s, frame, node)
+            return [Outcome(s, 'fall')]
         if isinstance(target, (ast.Tuple, ast.List)) and isinstance(value, (Dyn, Unk)) \
                 and all(isinstance(t, ast.Name) for t in target.elts):
             # unpacking a value of unknown shape (a remembered tuple, a call result): its components are unknown numbers
@@ -1757,7 +1911,7 @@ class SX:
                 return [(o.state, o.value) if o.kind == 'return' else ((o.state, NoneV()) if o.kind == 'fall' else o)
                         for o in outs]
             if pm is not None:
-                return [(st, Fv(f'bound:{attr}'))]
+                return [(st, Fv(f'bound:{attr}', obj))]
             # class attribute (e.g. __UNITS)?
             if ci and attr in ci.class_attrs:
                 d = ci.class_attrs[attr]
@@ -1767,6 +1921,9 @@ class SX:
                     if not any(isinstance(v, Unk) for v in vals.values()):
                         return [(st, Dv(vals))]          # a second constant table of the class (string keys, constant values)
                 return [(st, Unk(f'{owner}.{attr}'))]
+            al = self.ctor_alias(owner, mangled)
+            if al is not None:
+                return self.eval_alias(al, obj, owner, st, frame)
             ty = self.field_type(owner, mangled)
             name = f'{obj.path}.{self.canon_field(cls or owner, mangled)}'
             ver = st.vers.get((obj.path, mangled))
@@ -1786,6 +1943,9 @@ class SX:
                 if tf is not None:
                     if (obj.path, tf) in st.heap:
                         return [(st, st.heap[(obj.path, tf)])]
+                    al = self.ctor_alias(tf[1:].split('__')[0], tf) if (attr not in self.opaque_calls and f'{m.cls}.{attr}' not in self.opaque_calls) else None
+                    if al is not None:
+                        return self.eval_alias(al, obj, tf[1:].split('__')[0], st, frame)
                     ty = self.member_type(cls, attr)[0]
                     if ty is None:
                         owner = tf[1:].split('__')[0]
@@ -1813,7 +1973,7 @@ class SX:
                         res.append(o)
                 return res
             if m is not None:
-                return [(st, Fv(f'bound:{attr}'))]
+                return [(st, Fv(f'bound:{attr}', obj))]
             ca_cls, ca = self.model.find_class_attr(cls, attr)
             if ca is not None:
                 return [(st, Unk(f'{ca_cls}.{attr}'))]
@@ -1823,7 +1983,7 @@ class SX:
         # getter to (so that narrowing the class later does not change the atom), else by public name
         ty, m = self.member_type(cls, attr) if cls else (None, None)
         if m is not None and m.kind != 'property':
-            return [(st, Fv(f'bound:{attr}'))]
+            return [(st, Fv(f'bound:{attr}', obj))]
         name = f'{obj.path}.{attr}'
         return [(st, self.typed_atom(name, ty, name))]
 
@@ -2445,6 +2605,10 @@ class SX:
 
     def apply_name(self, n, name, args, kwargs, st, frame) -> list:
         m = self.model
+        if isinstance(st.env.get(name), Fv) and st.env[name].name.startswith('bound:') and isinstance(st.env[name].recv, Ov):
+            fv = st.env[name]                 # a local bound to a method of an object (f = obj.m): call the method on that object
+            fnode = ast.copy_location(ast.Attribute(value=ast.Name(id='<recv>', ctx=ast.Load()), attr=fv.name[6:], ctx=ast.Load()), n)
+            return self.apply(n, fnode, fv.recv, args, kwargs, st, frame)
         if isinstance(st.env.get(name), Fv) and not st.env[name].name.startswith('bound:'):
             name = st.env[name].name          # a local bound to a function: call the function
         opf = self.operator_imports(frame['module']).get(name)
@@ -2568,7 +2732,7 @@ class SX:
                             nxt.append((b, acc))
                     cur = nxt
                 return [(s_, Tv(acc)) for s_, acc in cur]
-        if name == 'bool' and len(args) == 1 and self.eval_comprehensions:
+        if name == 'bool' and len(args) == 1:
             t = self.truth(args[0])
             return [(st, Bv(t) if isinstance(t, bool) else Bsym(t))]
         if name == 'len' and len(args) == 1:
